@@ -4,11 +4,13 @@
      (pyeq A B)                -> true | false          model of Python  A == B
      (matrix (A ...) (B ...))  -> (m "0110...")         assignable, row-major, |A| x |B| characters
      (eqmatrix (A ...) (B ...))-> (m "...")             py_eq, same shape
+     (pairs (A B) (A B) ...)   -> (m "xyxy...")         per pair: x = assignable A B, y = py_eq A B
      (subclass C D)            -> true | false          issubclass table
      (descr T)                 -> (descr "type_str" "py_str" <is_dynamic> <static_len | none> <layout> <encodable> CLASS)
      (encode T V)              -> (some xHEX) | (none)  arc4_encode
      (lencode T V)             -> (some xHEX) | (none)  layout_encode (canon T)
      (typed T V)               -> true | false          val_has_type
+     (decode T xHEX)           -> (some V) | (none)     arc4_decode
    Types / values: see ABI/Wire.v. *)
 From Coq Require Import List Arith NArith Ascii String Bool.
 From PV Require Import Base.Bytes Base.Sexp ABI.Types ABI.Spec ABI.Layout ABI.Descr ABI.Assignable ABI.Wire.
@@ -85,6 +87,23 @@ Definition do_matrix (f : ty -> ty -> bool) (body : list sexp) : sexp :=
   | _ => err "matrix: expected two lists"
   end.
 
+Fixpoint pairs_bits (l : list sexp) : option (list ascii) :=
+  match l with
+  | [] => Some []
+  | SList [a; b] :: r =>
+      match w_ty a, w_ty b, pairs_bits r with
+      | Some a', Some b', Some rest => Some (bit (assignable a' b') :: bit (py_eq a' b') :: rest)
+      | _, _, _ => None
+      end
+  | _ => None
+  end.
+
+Definition do_pairs (body : list sexp) : sexp :=
+  match pairs_bits body with
+  | Some l => SList [Atom "m"; Str (string_of_list_ascii l)]
+  | None => err "pairs: expected (A B) ..."
+  end.
+
 Definition do_descr (body : list sexp) : sexp :=
   match body with
   | [t] =>
@@ -108,6 +127,20 @@ Definition do_tv (f : ty -> val -> sexp) (body : list sexp) : sexp :=
   | _ => err "expected a type and a value"
   end.
 
+Definition do_decode (body : list sexp) : sexp :=
+  match body with
+  | [t; Atom h] =>
+      match w_ty t, wa_hex h with
+      | Some t', Some bs =>
+          match arc4_decode t' bs with
+          | Some v => SList [Atom "some"; p_val v]
+          | None => SList [Atom "none"]
+          end
+      | _, _ => err "decode: bad type or bytes"
+      end
+  | _ => err "decode: expected a type and xHEX"
+  end.
+
 Definition do_subclass (body : list sexp) : sexp :=
   match body with
   | [c; d] => match w_pyclass c, w_pyclass d with
@@ -124,10 +157,12 @@ Definition dispatch (e : sexp) : sexp :=
       else if String.eqb cmd "pyeq" then do_rel2 py_eq body
       else if String.eqb cmd "matrix" then do_matrix assignable body
       else if String.eqb cmd "eqmatrix" then do_matrix py_eq body
+      else if String.eqb cmd "pairs" then do_pairs body
       else if String.eqb cmd "subclass" then do_subclass body
       else if String.eqb cmd "descr" then do_descr body
       else if String.eqb cmd "encode" then do_tv (fun t v => p_obytes (arc4_encode t v)) body
       else if String.eqb cmd "lencode" then do_tv (fun t v => p_obytes (layout_encode (canon t) v)) body
+      else if String.eqb cmd "decode" then do_decode body
       else if String.eqb cmd "typed" then do_tv (fun t v => p_bool (val_has_type t v)) body
       else err ("unknown command " ++ cmd)
   | _ => err "expected (command ...)"
